@@ -118,15 +118,17 @@ func (h *FakeHost) NewStream(ctx context.Context, p peer.ID, pids ...protocol.ID
 	return h.NewStreamFn(p)
 }
 
-// MockStream is a network.Stream that counts Close calls and swallows writes.
+// MockStream is a network.Stream that counts Close calls and swallows writes; Close returns
+// CloseErr (scripted failure: the stream was already reset by the remote side ...).
 type MockStream struct {
 	network.Stream
-	Name   string
-	closes atomic.Int64
-	writes atomic.Int64
+	Name     string
+	CloseErr error
+	closes   atomic.Int64
+	writes   atomic.Int64
 }
 
-func (s *MockStream) Close() error                { s.closes.Add(1); return nil }
+func (s *MockStream) Close() error                { s.closes.Add(1); return s.CloseErr }
 func (s *MockStream) Reset() error                { return nil }
 func (s *MockStream) Write(p []byte) (int, error) { s.writes.Add(1); return len(p), nil }
 func (s *MockStream) Closes() int                 { return int(s.closes.Load()) }
@@ -166,6 +168,9 @@ type CountingECDSAStorer struct {
 	LockCounter
 	Key    keyshare.ECDSAKeyshare
 	GetErr error
+	// File, if set, serves GetKeyshare by really reading that key-share file (so a missing,
+	// corrupt or unreadable file fails exactly as in the real store); only the mutex is replaced.
+	File *keyshare.ECDSAKeyshareStore
 	Stored []keyshare.ECDSAKeyshare
 	smu    sync.Mutex
 }
@@ -177,6 +182,9 @@ func (s *CountingECDSAStorer) GetKeyshare() (keyshare.ECDSAKeyshare, error) {
 	s.Led.Add(Event{Kind: "Get"})
 	if s.GetErr != nil {
 		return keyshare.ECDSAKeyshare{}, s.GetErr
+	}
+	if s.File != nil {
+		return s.File.GetKeyshare()
 	}
 	return s.Key, nil
 }
@@ -193,6 +201,8 @@ type CountingFrostStorer struct {
 	LockCounter
 	Key    keyshare.FrostKeyshare
 	GetErr error
+	// File: see CountingECDSAStorer.
+	File *keyshare.FrostKeyshareStore
 	Stored []keyshare.FrostKeyshare
 	smu    sync.Mutex
 }
@@ -204,6 +214,9 @@ func (s *CountingFrostStorer) GetKeyshare() (keyshare.FrostKeyshare, error) {
 	s.Led.Add(Event{Kind: "Get"})
 	if s.GetErr != nil {
 		return keyshare.FrostKeyshare{}, s.GetErr
+	}
+	if s.File != nil {
+		return s.File.GetKeyshare()
 	}
 	return s.Key, nil
 }
